@@ -84,7 +84,7 @@ func texts(class int, what string, v int) string {
 	case 0:
 		return fmt.Sprintf("%s v%d", what, v)
 	case 1:
-		return fmt.Sprintf("%s v%d \x00with\x1b[31m control\x07 chars", what, v)
+		return fmt.Sprintf("%s v%d \x00with\x1b[31m control\x07 chars, C1 ones too: \u0085 (NEL) \u009b31m (CSI) \u0090", what, v)
 	case 2:
 		return fmt.Sprintf("  %s v%d é世界 ‮ \r\nsecond line\ttab  ", what, v)
 	}
